@@ -39,6 +39,8 @@ RULE = ("contents sets of 0-12 entries built through the public fs/ContentsFile 
         "white space (tab, \\x0b, \\x0c, \\x1c, \\x85, \\xa0, U+2028), '->' fragments, accented/CJK/astral characters; ~4% of sets contain an entry of a "
         "known-finding class (line break in a path, '->' token in a symlink location). Each set is flushed over the previous one, re-read, compared; "
         "a subset is crashed (fork + _exit at every audited operation, SIGXFSZ in the middle of the data write). "
+        "Large packages: sets of 2^k-1, 2^k, 2^k+1 entries (k=6..12; three of them per quick run) and of 1500-6000 (thorough: -10000) entries over the "
+        "same alphabet; a failing set is shrunk by delta debugging on the real code before it is reported. "
         "Long-lived objects: a loaded (or kept) ContentsFile is driven through histories of 1-4 mutating calls per round (add, remove, del, discard by "
         "object/path, clear, update, difference_update incl. with itself, intersection_update, symmetric_difference_update), flushed, re-read with a "
         "fresh object, for 1-3 rounds. Failing flushes over an existing file: an entry the writer cannot render (unknown type, file without md5 via "
@@ -214,6 +216,56 @@ def gen_set(rng, finding=None):
     return out
 
 
+# sizes at which buffering/batching/chunking schemes change behaviour: 2^k-1, 2^k, 2^k+1
+SIZE_BOUNDARIES = [2 ** k + d for k in range(6, 13) for d in (-1, 0, 1)]
+TAILS = ["e%d", "f %d", "ü%d", "%d->x", " %d", "%d ", "日本 %d", "lib%d.so.1", "%d -> y"]
+
+
+def gen_big_set(rng, n):
+    """a large package: n entries spread over a few directories, same entry kinds and path alphabet as gen_set"""
+    parents = [gen_path(rng) for _ in range(max(1, n // 40))]
+    out, seen, i = [], set(), 0
+    while len(out) < n:
+        i += 1
+        kind = rng.choice(["obj"] * 5 + ["sym", "sym", "dir", "dev", "fif"])
+        loc = os.path.normpath(rng.choice(parents) + "/" + rng.choice(TAILS) % i)
+        if kind == "sym" and "->" in loc.split(" "):
+            kind = "dir"                      # a '->' token in a symlink location is the known-finding class; keep it out
+        if loc in seen:
+            continue
+        seen.add(loc)
+        if kind == "obj":
+            out.append(("obj", loc, gen_md5(rng), gen_mtime(rng)))
+        elif kind == "sym":
+            out.append(("sym", loc, gen_target(rng), gen_mtime(rng)))
+        else:
+            out.append((kind, loc))
+    rng.shuffle(out)
+    return out
+
+
+def shrink(items, fails, budget=60):
+    """delta debugging (complement removal) with a bounded number of evaluations of `fails`"""
+    cur, n = list(items), 2
+    while len(cur) >= 2 and budget > 0:
+        size = max(1, len(cur) // n)
+        chunks = [cur[i:i + size] for i in range(0, len(cur), size)]
+        reduced = False
+        for j in range(len(chunks)):
+            if budget <= 0:
+                break
+            cand = [d for k, ch in enumerate(chunks) if k != j for d in ch]
+            budget -= 1
+            if fails(cand):
+                cur, n, reduced = cand, max(n - 1, 2), True
+                break
+        if not reduced:
+            if size == 1:
+                break
+            n = min(len(cur), n * 2)
+    return cur
+
+
 def build(fs, d):
     if d[0] == "obj":
         return fs.fsFile(d[1], chksums={"md5": d[2]}, mtime=d[3], strict=False)
@@ -342,6 +394,12 @@ def run(ctx):
         for _ in range(ctx.n(1500, 40000)):
             r = rng.random()
             sets.append((gen_set(rng, "break" if r < 0.02 else "arrow" if r < 0.04 else None), "gen"))
+        n_small = len(sets)                  # the fault/crash sections below draw from the small sets only
+        # large packages: sizes at the 2^k boundaries and a few random large ones (installed packages have up to tens of thousands of entries)
+        big_sizes = (rng.sample(SIZE_BOUNDARIES, 3) + [rng.randrange(1500, 6000)] if ctx.quick() else
+                     SIZE_BOUNDARIES + [rng.randrange(1500, 10000) for _ in range(6)])
+        for n in big_sizes:
+            sets.append((gen_big_set(rng, n), "gen-large"))
         reqs, meta = [], []
         os.path.exists(path) and os.unlink(path)
         traces = 0
@@ -376,14 +434,38 @@ def run(ctx):
             if events is not None:
                 reqs.append({"cmd": "c24.flushops", "dir": root, "base": "CONTENTS", "chunks": [text]})
             meta.append((case, descs, text, got, rerr, exp, events, os.path.exists(tmp_path)))
+        spath = os.path.join(root, "shrink", "CONTENTS")
+        os.mkdir(os.path.dirname(spath))
+
+        def roundtrip_problem(ds):
+            """the property's statement on the real code for one set: None when it holds, else what came back wrong"""
+            try:
+                objs = [build(fs, d) for d in ds]
+                os.path.exists(spath) and os.unlink(spath)
+                c = ContentsFile(spath, mutable=True, create=True)
+                c.update(objs)
+                c.flush()
+            except Exception as e:
+                return f"building/flushing the set raised {type(e).__name__}: {e}"
+            exp = expected_of(objs)
+            try:
+                got = sorted(canon_obj(o) for o in ContentsFile(spath))
+            except Exception as e:
+                return f"reading back raised {type(e).__name__}: {str(e)[:200]}"
+            if got != exp:
+                gs, es = {tuple(e) for e in got}, {tuple(e) for e in exp}
+                return (f"{len(got)} read back: {[e for e in got if tuple(e) not in es][:2]} instead of {[e for e in exp if tuple(e) not in gs][:2]}")
+            return None
+        shrunk_reports = 0
         replies = iter(ctx.model(reqs))
         for case, descs, text, got, rerr, exp, events, tmp_left in meta:
             mtext, mread = next(replies), next(replies)
             mops = next(replies) if events is not None else None
             brk, arrow = has_break(descs), has_arrow(descs)
             nontrivial = len(descs) >= 2 and any((" " in d[1] or "->" in d[1] or any(ord(ch) > 127 for ch in d[1])) for d in descs)
-            ctx.case(case, nontrivial, key=repr(descs))
-            ctx.count("set_size_%d" % len(descs))
+            shown = case if len(descs) <= 50 else {"set": "(%d entries; first 3: %r)" % (len(descs), [list(d) for d in descs[:3]]), "origin": case["origin"]}
+            ctx.case(shown, nontrivial, key=repr(descs))
+            ctx.count("set_size_%s" % (len(descs) if len(descs) <= 12 else "13-1024" if len(descs) <= 1024 else "1025+"))
             for d in descs:
                 ctx.count("kind_" + d[0])
                 if d[1] != d[1].strip():
@@ -416,9 +498,19 @@ def run(ctx):
                 ctx.violation(case, "a temporary file is left behind after flush()")
             # --- edge C: the property
             if rerr is not None or got != exp:
+                gs, es = {tuple(e) for e in got or []}, {tuple(e) for e in exp}
                 detail = (f"reading back raised {rerr}" if rerr is not None else
-                          f"read back {[e for e in got if e not in exp][:3]} instead of {[e for e in exp if e not in got][:3]}")
-                ctx.violation(case, detail, finding="C24-linebreak-in-path" if brk else "C24-symlink-arrow-token" if arrow else None)
+                          f"read back {[e for e in got if tuple(e) not in es][:3]} instead of {[e for e in exp if tuple(e) not in gs][:3]}")
+                finding = "C24-linebreak-in-path" if brk else "C24-symlink-arrow-token" if arrow else None
+                if finding is None and len(descs) > 3 and shrunk_reports < 3:
+                    # a smaller set on which the property's own statement still fails (fresh object, fresh file, fresh re-read)
+                    shrunk_reports += 1
+                    small = shrink(descs, lambda ds: roundtrip_problem(ds) is not None)
+                    prob = roundtrip_problem(small)
+                    if prob is not None and len(small) < len(descs):
+                        case = {"set": [list(d) for d in small], "origin": f"shrunk from a {len(descs)}-entry {case['origin']} set"}
+                        detail = f"{len(small)} entries written, " + prob
+                ctx.violation(case, detail, finding=finding)
 
         # ---------------- mutation histories on long-lived objects, flush, re-read with a fresh object
         def mentry(d):
@@ -558,7 +650,7 @@ def run(ctx):
         import pkgcore.vdb.contents as cmod
         RealAWF = cmod.AtomicWriteFile
         freqs, fmeta = [], []
-        fault_sets = [s for s, _ in sets if s and not has_break(s) and not has_arrow(s)][: ctx.n(30, 400)]
+        fault_sets = [s for s, _ in sets[:n_small] if s and not has_break(s) and not has_arrow(s)][: ctx.n(30, 400)]
         for fi, descs in enumerate(fault_sets):
             os.path.exists(path) and os.unlink(path)
             os.path.exists(tmp_path) and os.unlink(tmp_path)
@@ -617,7 +709,9 @@ def run(ctx):
             ctx.count("failing_flush_raised_" + str(raised))
             if raised is None and mode != "os-error":
                 ctx.mismatch(case, "the injected failure did not make flush() raise")
-            if raised is not None and after_text != old_text:
+            if raised is None and (after_err is not None or after_set != exp):
+                ctx.violation(case, f"flush() returned normally but a fresh ContentsFile does not show the set that was flushed ({after_err or 'different entries'})")
+            elif raised is not None and after_text != old_text:
                 ctx.violation(case, f"flush() failed with {raised} but CONTENTS changed: {len(after_text or '')} chars instead of the previous {len(old_text)}"
                               f" (first line now {(after_text or '').splitlines()[:1]})")
             elif after_err is not None or after_set not in (old_set, exp):
@@ -633,7 +727,7 @@ def run(ctx):
                 ctx.mismatch(case, f"os-level operations of the failing flush {[list(e) for e in events]} differ from the model's abort sequence {want}")
 
         # ---------------- crash injection on the real code
-        crash_sets = [s for s, _ in sets if not has_break(s) and not has_arrow(s) and s][: ctx.n(14, 120)]
+        crash_sets = [s for s, _ in sets[:n_small] if not has_break(s) and not has_arrow(s) and s][: ctx.n(14, 120)]
         big = [("obj", "/big/file %05d %s" % (i, "x" * 40), i, i) for i in range(400)]      # > one stdio buffer: several write(2) calls
         crash_sets.insert(0, big)
         old_descs = [("dir", "/previous"), ("obj", "/previous/file", 1, 1), ("sym", "/previous/l", "file", 2)]
